@@ -392,15 +392,13 @@ func (self *Runtime) InvokePipeline(src string, srcPath string, psid string,
 		pipestancePath, mroPaths,
 		mroVersion, envs, false, readOnly, context.Background())
 	if err != nil {
-		// If instantiation failed, clean up.  The contents of the folder
-		// are ours only if this call got as far as taking the lock (then a
-		// pipestance is returned along with the error).  Otherwise another
-		// instance may have started in the folder in the meantime: remove
-		// the folder only if it is still empty.
+		// If instantiation failed, clean up.  The folder is ours only if
+		// this call got as far as taking the lock (then a pipestance is
+		// returned along with the error).  Otherwise another instance may
+		// have started in the folder in the meantime, or be about to create
+		// its lock file there: leave the folder alone, even if it is empty.
 		if pipestance != nil {
 			os.RemoveAll(pipestancePath)
-		} else {
-			os.Remove(pipestancePath)
 		}
 		return nil, err
 	}
